@@ -4,9 +4,13 @@ Model: lean/StraxModel/Model/MultiRun.lean; theorems: Props/C15.lean.
 Tie (i)   strax.multi_run with stub exec_functions whose completion order is scripted (one future
           completes per `wait`) vs the Lean `multiRunFull`; plus free-running stubs (oracle only).
 Tie (ii)  checks/lib/interleave.py: real threads running Context.get_array on ONE context under a
-          line-level baton; every access of the shared plugin registry / plugin cache is logged and
-          the log is replayed through the Lean registry model (`c15.replay`), which must predict the
-          result of every access (including the first exception).
+          line-level baton; (a) every access of the shared plugin registry / plugin cache is logged and
+          the log is replayed through the Lean dict model (`c15.replay`), which must predict the
+          result of every access (including the first exception); (b) the same log is read as thread
+          programs over the model's `Instr` alphabet and executed by the Lean transition system under
+          the real interleaving (`c15.sched`, and `c15.blocks` for workers run one after the other):
+          same failing threads, same error kinds, same final registry; (c) program-shape: workerProg's
+          order of instruction classes occurs in every finished worker.
 Tie (iii) validation on the real thing: get_array / get_df / make for lists of runs, 1..8 workers,
           single / multiple same-kind targets, cold / warm plugin cache, with / without storage,
           1 microsecond interpreter switch interval: oracle = concatenation of sequential single-run
@@ -43,9 +47,16 @@ TRUSTED = [
     "modelled not verified: concurrent.futures executor (FIFO work queue, `workers` tasks at a time), CPython dict semantics (insertion order, size check of iterators), GIL switching between byte codes (atomicity is assumed per source line)",
 ]
 ASSUMPTIONS = [
+    "multiRun (and every theorem of part 1) models the outcome of loading one run as a PURE FUNCTION of its run id (`results : run -> Except Err rows`): "
+    "a worker's result does not depend on what the other workers do.  On a shared context this is exactly what the open findings D8 (several same-kind "
+    "targets) and D8b (cold plugin cache) refute; outside those two shapes the real/multi-run and registry/* components find it to hold, they do not prove it",
     "run ids are compared through their rank in sorted order; numpy's unicode sort and Python's str sort agree on the ASCII ids used",
     "scripted completion handles exactly one finished future per wait(); several futures finishing together are covered by the free-running stubs and by the real get_array runs (oracle only)",
-    "registry model: threads are atomic per source line of context.py; an iterator step over a dict that got a new key and has its old size again is left unspecified",
+    "registry model: threads are atomic per source line of context.py (finer GIL switches only add behaviours of the same kinds); an iterator step over a dict that got a new key "
+    "and has its old size again is left unspecified, and runs containing such a step are not compared with the program layer",
+    "registry_safe_serialized* are theorems about a repair (a lock) that is NOT applied to /repo; they are not evidence for the current code.  What is tied to the current code: "
+    "the dict/attribute semantics (c15.replay), the program layer stepThread / Sys.run / Sys.runBlocks (c15.sched, c15.blocks on programs read off real runs), workerProg's order of "
+    "instruction classes, and the hypothesis of readonly_workers_safe_partial for single-target workers on a warm cache",
 ]
 
 ERR_KINDS = {"ValueError": ValueError, "RuntimeError": RuntimeError, "KeyError": KeyError, "TypeError": TypeError,
@@ -489,7 +500,12 @@ def _traced_cache_setter(self, v):
 def _traced_cache_getter(self):
     v = self.__dict__.get("_c15_fpc")
     if self._c15_log is not None:
-        self._c15_log.add(0, "R", "b1" if v is not None else "b0")
+        import linecache
+        f = sys._getframe(1)
+        line = linecache.getline(f.f_code.co_filename, f.f_lineno)
+        # `... is None` only tests the attribute; every other read subscripts it / tests membership (TypeError on None)
+        kind = "test" if re.search(r"_fixed_plugin_cache\s+is\s+(not\s+)?None", line) else "use"
+        self._c15_log.add(0, "R", "b1" if v is not None else "b0", kind)
     return v
 
 
@@ -501,6 +517,7 @@ def install_tracing(st, il_ref):
     st._plugin_class_registry = ilv.TracedRegistry(st._plugin_class_registry, log.new_dict())
     st.__dict__["_c15_fpc"] = _wrap_cache(st, log, st.__dict__.get("_c15_fpc"))
     st._c15_log = log
+    log.n_initial_dicts = len(log.dicts)
     return log
 
 
@@ -645,16 +662,17 @@ def case_tag(case, workers=None):
     return f"[multi_target={int(case['targets'] == 'multi')} workers={w} cache={'warm' if case['warm'] else 'cold'} storage={int(bool(case.get('storage')))}]"
 
 
-def oracle_interleaved(case, out):
+def failures_interleaved(case):
+    """one message per failure of one interleaved run (never joined: each is matched on its own)"""
     side = _SIDE.get(id(case))
     if side is None:
-        return None
+        return []
     info = side["info"]
     msgs = []
     for i, r in enumerate(info["res"]):
         exp = expected_single(str(i), case["targets"])
         if r is None:
-            msgs.append(f"thread {i} did not finish")
+            msgs.append(f"thread {i} did not finish {case_tag(case)}")
         elif r[0] == "err":
             e = r[1]
             msgs.append(f"crash: thread {i} raised {describe_exc(e)} explained={int(explained(info, i, e))} {case_tag(case)}")
@@ -662,47 +680,263 @@ def oracle_interleaved(case, out):
             msgs.append(f"wrong-result: thread {i} returned rows that differ from the sequential single-run call {case_tag(case)}")
     if msgs:
         # keep the executed schedule so that the case can be replayed exactly
-        case["strategy"] = dict(kind="replay", schedule=list(info["il"].schedule), was=case["strategy"])
-    return "; ".join(msgs) if msgs else None
+        case["strategy"] = dict(kind="replay", schedule=list(info["il"].schedule), was=case["strategy"].get("was", case["strategy"]))
+    return msgs
 
 
-# -- the open findings are matched by the engine against known_findings.json; `Capped` reads the same regexes
-def known_shapes(ctx):
-    return [(k["id"], re.compile(k["match"]["regex"])) for k in ctx.known.get("open", [])
-            if k.get("property") == ID and "regex" in k.get("match", {})]
+def oracle_interleaved(case, out):
+    """replay entry point: all failures of the run (the check itself files them one by one)"""
+    return " ;; ".join(failures_interleaved(case)) or None
 
 
-class Capped:
-    """Passes at most `cap` violations of each known shape per component on to the engine (which keeps
-    at most 5 violations per component): further ones are only counted, so that a flood of the open
-    findings cannot crowd out a different violation of the same component."""
+def one_per_failure(ctx, comp, failures):
+    """oracle for ctx.correspond that reports every failure of a case as a violation of its own: the first through
+    the engine's normal path (return value), the others directly — so that a listed finding (matched per
+    violation, anchored on the whole message) can never cover a different failure of the same run."""
+    def oracle(case, out):
+        msgs = failures(case, out)
+        for m in msgs[1:]:
+            ctx.comp(comp).oracle_failures += 1
+            ctx.violation(comp, "oracle", {"case": case, "op": None}, {"impl": out[:300], "also": "further failure of the same run"}, m, True)
+        return msgs[0] if msgs else None
+    return oracle
 
-    def __init__(self, ctx, oracle, cap=1):
-        self.ctx, self.oracle, self.cap = ctx, oracle, cap
-        self.shapes = known_shapes(ctx)
-        self.seen = {}
-        self.first = {}
 
-    def __call__(self, case, out):
-        msg = self.oracle(case, out)
-        if not msg:
-            return None
-        parts = msg.split("; ")
-        shapes = []
-        for p_ in parts:
-            shapes.append(next((name for name, rx in self.shapes if rx.search(p_)), None))
-        if any(s is None for s in shapes):
-            return msg           # something else is wrong: always report
-        name = shapes[0]
-        n = self.seen.get(name, 0)
-        self.seen[name] = n + 1
-        if n == 0:
-            self.first[name] = (case, msg)
-        return msg if n < self.cap else None
+def tally_known(ctx, comp):
+    n = {}
+    for v in ctx.violations:
+        if v.component == comp and v.known:
+            n[v.known] = n.get(v.known, 0) + 1
+    return n
 
-    def note(self, comp):
-        for name, n in sorted(self.seen.items()):
-            self.ctx.note(f"{comp}: {n} case(s) hit the open finding {name}")
+
+# ----------------------------------------------------------------------------- (ii-b) program layer vs get_iter
+class Incomparable(Exception):
+    pass
+
+
+def project_program(info):
+    """Read the program-level events of every thread off the access log of a real interleaved run:
+    per thread the sequence of `Instr` tokens it performed (attempted), and the global schedule = one thread index
+    per model micro-step, in the order in which the corresponding real accesses happened.
+
+      registry:  L t<k> / W0 / S t<k>      -> R<k>  (registerTemp: look-up, [cache reset], assignment)
+                 I (items|values), N ...   -> H     (contextHash: iterator creation, one step per `next`)
+                 C t<k>, then G t<k>       -> X<k>  (resolve: membership test, subscript)
+                 bare G t<k>               -> G<k>  (lookupTemp)   / g<k> inside _make_progress_bar's try/except
+                 I (keys), D t<k> ...      -> D     (deleteAllTemp: snapshot, one step per del, one closing step)
+      attribute: R (is None test)          -> T ;  R (subscript / membership) -> U ;  W1 -> N (cacheInit)
+      inner dict d: I, N ...               -> I<d> ;  S key -> S<d>_key ;  G key -> Q<d>_key
+    Accesses of ordinary data-type keys of the registry and membership tests on inner dicts neither change the
+    shared state nor can fail: they are left out."""
+    log, n = info["log"], len(info["res"])
+    progs = [[] for _ in range(n)]
+    sched = []
+    T = [dict(await_get=None, cleanup=None, finish=False, use=False, cur=None) for _ in range(n)]
+
+    def flush_use(w):
+        if T[w]["use"]:
+            progs[w].append("U")
+            sched.append(w)
+            T[w]["use"] = False
+
+    entries = log.entries
+    for pos_, (w, d, act, res, _step, extra) in enumerate(entries):
+        if not (0 <= w < n):
+            raise Incomparable("access by an uncontrolled thread")
+        t = T[w]
+        a0 = act[0]
+        is_cleanup_step = d == 0 and ((a0 == "N" and act[1:] == t["cleanup"]) or (a0 == "D" and act[1:2] == "t"))
+        if t["finish"] and not is_cleanup_step:
+            sched.append(w)                    # `deleting [] -> idle`: nothing left to delete
+            t["finish"], t["cleanup"] = False, None
+        if d == 0:
+            last, t["last"] = t.get("last", ""), act
+            if a0 == "L" and act[1] == "t":
+                if last.startswith("St"):
+                    continue    # register(): `currently_registered = registry.get(d)` for the class it just replaced
+                progs[w].append("R" + act[2:])
+                sched.append(w)
+            elif act == "W0" or (a0 == "S" and act[1] == "t"):
+                sched.append(w)
+            elif a0 == "I":
+                if extra == "keys":
+                    progs[w].append("D")
+                    sched.append(w)
+                    t["cleanup"], t["finish"] = act[1:], True
+                else:
+                    if t["cur"] is not None:
+                        raise Incomparable("nested iteration")
+                    progs[w].append("H")
+                    sched.append(w)
+                    t["cur"] = act[1:]
+            elif a0 == "N":
+                if act[1:] == t["cleanup"]:
+                    continue
+                if res == "?":
+                    raise Incomparable("iterator step left unspecified by the dict model")
+                sched.append(w)
+                if res in ("s", "eRuntimeError"):
+                    t["cur"] = None
+                if res == "s":
+                    flush_use(w)
+            elif a0 == "D" and act[1] == "t":
+                sched.append(w)
+                if res.startswith("e"):
+                    t["finish"] = False
+            elif a0 == "C" and act[1] == "t":
+                if extra == "guarded":      # __get_plugin reached from _make_progress_bar: its KeyError is swallowed there
+                    progs[w].append("g" + act[2:])
+                    sched.append(w)
+                    continue
+                progs[w].append("X" + act[2:])
+                sched.append(w)
+                t["await_get"] = act[2:] if res == "b1" else None
+            elif a0 == "G" and act[1] == "t":
+                if t["await_get"] == act[2:]:
+                    t["await_get"] = None
+                else:
+                    progs[w].append(("g" if extra == "guarded" else "G") + act[2:])
+                sched.append(w)
+            elif act == "R":
+                if extra == "test":
+                    progs[w].append("T")
+                    sched.append(w)
+                elif res == "b0" and next((e_[2][0] == "I" for e_ in entries[pos_ + 1:] if e_[0] == w), False):
+                    # `cache[self._context_hash()]`: the attribute is read first, the TypeError comes after the hash
+                    t["use"] = True
+                else:
+                    progs[w].append("U")
+                    sched.append(w)
+            elif act == "W1":
+                progs[w].append("N")
+                sched.append(w)
+            elif a0 in "SD":
+                raise Incomparable("an ordinary data type was (de)registered")
+        else:
+            di = d - 1
+            if a0 == "I":
+                if t["cur"] is not None:
+                    raise Incomparable("nested iteration")
+                progs[w].append(f"I{di}")
+                sched.append(w)
+                t["cur"] = act[1:]
+            elif a0 == "N":
+                if res == "?":
+                    raise Incomparable("iterator step left unspecified by the dict model")
+                sched.append(w)
+                if res in ("s", "eRuntimeError"):
+                    t["cur"] = None
+                if res == "s":
+                    flush_use(w)
+            elif a0 == "S":
+                progs[w].append(f"S{di}_{act[1:].split('/')[0]}")
+                sched.append(w)
+            elif a0 == "G":
+                progs[w].append(f"Q{di}_{act[1:]}")
+                sched.append(w)
+    for w in range(n):
+        if T[w]["finish"]:
+            sched.append(w)
+        flush_use(w)
+    inner0 = []
+    for dl in log.dicts[1:log.n_initial_dicts]:
+        inner0.append("+".join(f"p{i}" for i in range(dl.n_initial)))
+    return dict(progs=progs, sched=sched, inner0=",".join(inner0) or "-", n_plugins=log.dicts[0].n_initial)
+
+
+def program_outcome(info):
+    """outcome class of the real run in the vocabulary of the model's `showSys`"""
+    toks = []
+    for r in info["res"]:
+        toks.append("done" if (r and r[0] == "ok") else ("err:" + sl.err_name(r[1]) if r else "unfinished"))
+    d0 = info["log"].dicts[0]
+    keys = "+".join(d0.key(k) for k in d0.traced.plain_keys()) or "-"
+    return "ok " + " ".join(toks) + f" reg={keys} cache={int(info['cache1'])}"
+
+
+_PROG_NOTES = {"incomparable": 0, "compared": 0}
+
+
+def impl_program(case):
+    side = _SIDE.get(id(case))
+    if side is None:
+        impl_interleaved(case)
+        side = _SIDE[id(case)]
+    info = side["info"]
+    try:
+        pr = project_program(info)
+    except Incomparable as e:
+        side["prog_op"] = None
+        side["prog"] = None
+        _PROG_NOTES["incomparable"] += 1
+        case["incomparable"] = str(e)
+        return program_outcome(info)
+    side["prog"] = pr
+    progs = "/".join(".".join(p_) or "-" for p_ in pr["progs"])
+    if case.get("blocks"):
+        order = []
+        for t_ in info["il"].schedule:
+            if not order or order[-1] != t_:
+                order.append(t_)
+        side["prog_op"] = f"c15.blocks {pr['n_plugins']} {int(info['cache0'])} {pr['inner0']} {progs} {sl.show_ints(order)}"
+    else:
+        side["prog_op"] = f"c15.sched {pr['n_plugins']} {int(info['cache0'])} {pr['inner0']} {progs} {sl.show_ints(pr['sched'])}"
+    _PROG_NOTES["compared"] += 1
+    return program_outcome(info)
+
+
+def op_program(case):
+    _wait_driver()
+    return _SIDE[id(case)]["prog_op"]
+
+
+COARSE = {"H": "H", "R": "R", "X": "X", "G": "G", "T": "C", "U": "C", "N": "C", "C": "C", "D": "D"}
+
+
+def coarse(tokens):
+    out = []
+    for tok in tokens:
+        c = COARSE.get(tok[0])
+        if c and (not out or out[-1] != c):
+            out.append(c)
+    return out
+
+
+def shape_failures(ctx, case):
+    """`workerProg` (and its read-only sibling for a single target) as a claim about get_iter: the events of every
+    worker that finished must contain the model program's instruction classes in its order, with exactly one
+    registration and one clean-up, every unguarded look-up of the temp name in between; a single-target worker on a
+    warm cache must not write shared state at all."""
+    side = _SIDE.get(id(case))
+    if not side or not side.get("prog"):
+        return []
+    msgs = []
+    want = coarse(ctx._c15_workerprog)
+    # `resolve` (membership test + subscript in __get_plugin) only happens when the temp plugin is not in the plugin
+    # cache, i.e. for the first worker on a cold cache (or after an invalidation): optional in the required order
+    want = [c_ for c_ in want if c_ != "X"]
+    for i, (r, prog) in enumerate(zip(side["info"]["res"], side["prog"]["progs"])):
+        if not r or r[0] != "ok":
+            continue
+        if case["targets"] == "multi":
+            seq = coarse(prog)
+            it = iter(seq)
+            if not all(any(x == w for x in it) for w in want):
+                msgs.append(f"program-shape: worker {i} performed {'.'.join(seq)}, which does not contain workerProg's {'.'.join(want)} in order")
+            nr, nd = sum(t_[0] == "R" for t_ in prog), sum(t_ == "D" for t_ in prog)
+            ir = next((j for j, t_ in enumerate(prog) if t_[0] == "R"), -1)
+            idel = next((j for j, t_ in enumerate(prog) if t_ == "D"), len(prog))
+            stray = [j for j, t_ in enumerate(prog) if t_[0] in "XG" and not (ir < j < idel)]
+            if nr != 1 or nd != 1 or stray:
+                msgs.append(f"program-shape: worker {i}: {nr} registration(s), {nd} clean-up(s), {len(stray)} temp look-up(s) outside them")
+        else:
+            writes = [t_ for t_ in prog if t_[0] in "RNS"]
+            if case["warm"] and writes:
+                msgs.append(f"program-shape: single-target worker {i} on a warm cache wrote shared state: {writes[:5]}")
+            if any(t_[0] in "RXG" for t_ in prog):
+                msgs.append(f"program-shape: single-target worker {i} touched a temp plugin")
+    return msgs
 
 
 def registry_random_cases(ctx, n):
@@ -784,28 +1018,40 @@ def real_case(rng, api=None):
                 fail=fail, ignore=int(bool(fail) and rng.random() < 0.6))
 
 
-def canon_table(x):
+def table_rows(x):
+    """(column names, rows as tuples of str) of a structured array or DataFrame"""
     import pandas as pd
-    if x is None:
-        return "none"
     if isinstance(x, pd.DataFrame):
-        cols = list(x.columns)
-        return "df:" + "|".join(cols) + ":" + (";".join(",".join(str(v) for v in row) for row in x.itertuples(index=False)) or "-")
-    return "|".join(x.dtype.names) + ":" + canon_rows(x)
+        return list(x.columns), [tuple(str(v) for v in row) for row in x.itertuples(index=False)]
+    names = list(x.dtype.names)
+    return names, [tuple(str(v.decode() if isinstance(v, bytes) else v) for v in (row[n] for n in names)) for row in x]
 
 
-def expected_table(case):
-    """concatenation of the sequential single-run results in run-id order with the run id attached"""
-    fail = tuple(case["fail"])
-    parts, kinds = [], []
-    for r in sorted(case["runs"]):
-        kind, val = expected_single(r, case["targets"], fail)
-        if kind == "err":
-            kinds.append(val)
-            continue
-        ids = np.array([r] * len(val), dtype=[("run_id", np.array(case["runs"]).dtype)])
-        parts.append(strax.merge_arrs([ids, val]))
-    return (np.concatenate(parts) if parts else None), kinds
+def per_run(x):
+    """group the rows of a multi-run result by their run_id, in order of appearance:
+    (columns, [(run, sha1 of its rows without the run_id column)], grouped: every run in one contiguous block)"""
+    cols, rows = table_rows(x)
+    if "run_id" not in cols:
+        return cols, [("?", "norunid")], False
+    k = cols.index("run_id")
+    groups = []
+    for row in rows:
+        rest = row[:k] + row[k + 1:]
+        if groups and groups[-1][0] == row[k]:
+            groups[-1][1].append(rest)
+        else:
+            groups.append((row[k], [rest]))
+    ids = [g[0] for g in groups]
+    return cols, [(r, hashlib.sha1(repr(g).encode()).hexdigest()[:10]) for r, g in groups], len(set(ids)) == len(ids)
+
+
+def expected_run_hash(case, r):
+    kind, val = expected_single(r, case["targets"], tuple(case["fail"]))
+    if kind != "ok":
+        return None, None
+    x = strax.convert_structured_array_to_df(val, log=QUIET_LOG) if case["api"] == "get_df" else val
+    cols, rows = table_rows(x)
+    return ["run_id"] + cols, hashlib.sha1(repr(rows).encode()).hexdigest()[:10]
 
 
 class _Capture(logging.Handler):
@@ -817,23 +1063,9 @@ class _Capture(logging.Handler):
         self.msgs.append(record.getMessage())
 
 
-def present_runs(res):
-    import pandas as pd
-    if res is None:
-        return []
-    col = res["run_id"] if (isinstance(res, pd.DataFrame) and "run_id" in res.columns) or \
-        (not isinstance(res, pd.DataFrame) and "run_id" in res.dtype.names) else []
-    seen = []
-    for v in col:
-        v = v.decode() if isinstance(v, bytes) else str(v)
-        if v not in seen:
-            seen.append(v)
-    return seen
-
-
 def _ignored(cap):
     """texts of the exceptions that multi_run logged as ignored"""
-    return [m[len("Ran into "):].rsplit(", ignoring", 1)[0].replace(" ", "_") for m in cap.msgs if m.startswith("Ran into ")]
+    return [m[len("Ran into "):].rsplit(", ignoring", 1)[0].replace("~", "-").replace(" ", "~").replace("|", "/") for m in cap.msgs if m.startswith("Ran into ")]
 
 
 def impl_real(case):
@@ -860,10 +1092,14 @@ def impl_real(case):
             return f"err {sl.err_name(e)} | {describe_exc(e)} | ignored=" + ("|".join(_ignored(cap)) or "-")
         finally:
             sys.setswitchinterval(old)
-        out = "ok " + hashlib.sha1(canon_table(res).encode()).hexdigest()[:16]
         st.log = QUIET_LOG
-        ignored = _ignored(cap)
-        out += " runs=" + (",".join(present_runs(res)) or "-") + " ignored=" + ("|".join(ignored) or "-")
+        ign = "|".join(_ignored(cap)) or "-"
+        if res is None:
+            out = f"ok none ignored={ign}"
+        else:
+            cols, groups, grouped = per_run(res)
+            out = (f"ok cols={','.join(cols)} runs=" + (",".join(f"{r}:{h}" for r, h in groups) or "-") +
+                   f" grouped={int(grouped)} ignored={ign}")
         if case["api"] == "make":
             # what was made must be loadable afterwards, run by run, and equal the sequential result
             after = []
@@ -875,8 +1111,8 @@ def impl_real(case):
                     stored = bool(case["storage"]) and all(st.is_stored(r, t) for t in strax.to_str_tuple(TARGETS[tkey]))
                     after.append(f"{r}:{hashlib.sha1(canon_rows(a).encode()).hexdigest()[:8]}:{int(stored)}")
                 except Exception as e:  # noqa: BLE001
-                    after.append(f"{r}:err {sl.err_name(e)}")
-            out += " after=" + ",".join(after)
+                    after.append(f"{r}:err_{sl.err_name(e)}:0")
+            out += " after=" + (",".join(after) or "-")
         return out
     finally:
         sys.setswitchinterval(old)
@@ -884,60 +1120,83 @@ def impl_real(case):
             shutil.rmtree(tmp, ignore_errors=True)
 
 
-def oracle_real(case, out):
+OWN_FAILURE = re.compile(r"^OSError: c15: run (\S+) cannot be read\b")
+
+
+def failures_real(case, out):
+    """one message per failure of one free-running multi-run call"""
     tag = case_tag(case, workers=case["workers"])
-    exp, kinds = expected_table(case)
+    api = case["api"]
     healthy = [r for r in sorted(case["runs"]) if r not in case["fail"]]
-    n_expected_ignored = len([r for r in case["runs"] if r in case["fail"]])
-
-    def swallowed(ignored, missing):
-        foreign = [m for m in ignored if not m.startswith("Failed to process chunk") and "cannot be read" not in m]
-        return (f"omitted-run: healthy run(s) {missing} left out because ignore_errors swallowed the exception of their worker: "
-                f"{' / '.join(foreign or ignored)[:200]} {tag}")
-
+    failing = [r for r in sorted(case["runs"]) if r in case["fail"]]
+    msgs = []
+    fields = dict(tok.split("=", 1) for tok in out.split(" ") if "=" in tok and not tok.startswith("|"))
+    ign_tok = out.rsplit("ignored=", 1)[1].split(" ")[0] if "ignored=" in out else "-"
+    ignored = [] if ign_tok == "-" else [x.replace("~", " ") for x in ign_tok.split("|")]
+    own = [m for m in ignored if "cannot be read" in m]
+    foreign = [m for m in ignored if "cannot be read" not in m]
+    for m in foreign:
+        msgs.append(f"omitted-run: ignore_errors swallowed a worker exception that is not the failure of a failing run ({m[:120]}) {tag}")
     if out.startswith("err "):
-        head, desc, ign_tok = out[4:].split(" | ", 2)
-        ignored = [] if ign_tok == "ignored=-" else [x.replace("_", " ") for x in ign_tok[8:].split("|")]
-        if kinds and not case["ignore"]:
-            return None      # a failing run raises
-        if case["ignore"] and len(ignored) > n_expected_ignored:
-            return swallowed(ignored, healthy)
-        if case["ignore"] and not healthy:
-            return None      # every run fails: nothing (not even a dtype) is left to return
-        return f"crash: {case['api']} raised {desc} {tag}"
-    if kinds and not case["ignore"]:
-        return f"{case['api']} returned although run(s) fail with {kinds} and errors are not ignored {tag}"
-    body = out[3:].split(" after=")
-    head, runs_tok, ign_tok = body[0].split(" ")
-    body[0] = head
-    present = [] if runs_tok == "runs=-" else runs_tok[5:].split(",")
-    ignored = [] if ign_tok == "ignored=-" else [x.replace("_", " ") for x in ign_tok[8:].split("|")]
-    if case["ignore"] and len(ignored) > n_expected_ignored:
-        # ignore_errors swallowed the exception of a run that loads fine on its own
-        return swallowed(ignored, [r for r in healthy if r not in present] if case["api"] != "make" else ["?"])
-    if case["api"] == "make":
-        if not body[0].startswith(hashlib.sha1(b"none").hexdigest()[:16]):
-            return f"make returned something {tag}"
-        for tok in (body[1].split(",") if len(body) > 1 and body[1] else []):
-            r, h, *stored = tok.split(":")
+        head, desc, _ = out[4:].split(" | ", 2)
+        if failing and not case["ignore"]:
+            m = OWN_FAILURE.match(desc)
+            if not (m and m.group(1) in failing):
+                msgs.append(f"crash: {api} raised {desc} {tag}")      # not the exception of (one of) the failing run(s)
+            return msgs
+        if case["ignore"] and (not healthy or len(foreign) - max(0, len(failing) - len(own)) >= len(healthy)):
+            return msgs          # nothing (not even a dtype) was left to return: np.concatenate([]) raises
+        msgs.append(f"crash: {api} raised {desc} {tag}")
+        return msgs
+    if failing and not case["ignore"]:
+        msgs.append(f"wrong-result: {api} returned although run(s) {failing} fail and errors are not ignored {tag}")
+        return msgs
+    if case["ignore"] and len(own) > len(failing):
+        msgs.append(f"wrong-result: {len(failing)} run(s) fail but {len(own)} failures of them were logged as ignored {tag}")
+    # a failing run whose worker died of something else first (reported above) does not log its own failure
+    unaccounted = len(failing) - len(own) if case["ignore"] else 0
+    body = out.split(" after=")
+    if api == "make":
+        if not body[0].startswith("ok none"):
+            msgs.append(f"wrong-result: make returned something {tag}")
+        toks = [] if len(body) < 2 or body[1] == "-" else body[1].split(",")
+        bad_after = 0
+        for tok in toks:
+            r, h, stored = tok.split(":")
             e = expected_single(r, case["targets"], tuple(case["fail"]))
             if h.startswith("err") or h != hashlib.sha1(canon_rows(e[1]).encode()).hexdigest()[:8]:
-                return f"wrong-result: after make, run {r} loads rows that differ from the sequential result {tag}"
-            if case["storage"] and stored and stored[0] != "1":
-                return f"wrong-result: after make, run {r} is not stored {tag}"
-        return None
-    if exp is None:
-        want = None
-    elif case["api"] == "get_df":
-        want = strax.convert_structured_array_to_df(exp, log=QUIET_LOG)
-    else:
-        want = exp
-    if exp is None:
-        # every run failed and errors were ignored: np.concatenate([]) raises ValueError in get_array
-        return f"wrong-result: returned data although every run fails {tag}"
-    if body[0] != hashlib.sha1(canon_table(want).encode()).hexdigest()[:16]:
-        return f"wrong-result: {case['api']} differs from the concatenation of sequential single-run calls with run_id attached {tag}"
-    return None
+                msgs.append(f"wrong-result: after make, run {r} loads rows that differ from the sequential result {tag}")
+            elif case["storage"] and stored != "1":
+                bad_after += 1
+        # a run whose worker crashed on the race (already reported above) is legitimately not stored
+        if bad_after > len(foreign) - unaccounted:
+            msgs.append(f"wrong-result: after make, {bad_after} healthy run(s) are not stored although only {len(foreign) - unaccounted} of their workers failed {tag}")
+        return msgs
+    if body[0].startswith("ok none"):
+        msgs.append(f"wrong-result: {api} returned None {tag}")
+        return msgs
+    groups = [] if fields.get("runs", "-") == "-" else [g.split(":") for g in fields["runs"].split(",")]
+    present = [g[0] for g in groups]
+    if fields.get("grouped") != "1" or present != sorted(present):
+        msgs.append(f"wrong-order: the rows of {api} are not grouped by run in run-id order: {present} {tag}")
+    for r, h in groups:
+        if r not in healthy:
+            msgs.append(f"wrong-result: {api} returned rows labelled with run {r!r}, which " + ("fails" if r in failing else "was not asked for") + f" {tag}")
+            continue
+        cols, eh = expected_run_hash(case, r)
+        if fields.get("cols", "").split(",") != cols:
+            msgs.append(f"wrong-result: {api} returned columns {fields.get('cols')} instead of {','.join(cols)} {tag}")
+            break
+        if h != eh:
+            msgs.append(f"wrong-result: the rows {api} returned for run {r!r} differ from the sequential single-run call {tag}")
+    missing = [r for r in healthy if r not in present]
+    if len(missing) != len(foreign) - unaccounted:
+        msgs.append(f"wrong-result: healthy run(s) {missing} are missing from {api} but {len(foreign) - unaccounted} exception(s) of healthy runs' workers were swallowed {tag}")
+    return msgs
+
+
+def oracle_real(case, out):
+    return " ;; ".join(failures_real(case, out)) or None
 
 
 def branch_real(case, out):
@@ -987,52 +1246,89 @@ def run_stubs(ctx):
 
 
 def run_registry(ctx, t0):
-    if True:
-        nontriv = lambda c, o: True  # noqa: E731
-        rule_il = ("2..3 real threads, each get_array(run_i, targets) on ONE context, scheduled line by line inside strax/context.py; every access of the "
-                   "plugin registry, of the _fixed_plugin_cache attribute and of the inner plugin-cache dicts is logged and replayed through the Lean model, "
-                   "which must predict every result (incl. the first exception) and the final key sets; oracle: every thread returns the sequential result")
-        cap = Capped(ctx, oracle_interleaved)
-        cases = registry_random_cases(ctx, ctx.pick(60, 800))
-        ctx.correspond("registry/random", cases, impl_interleaved, op_interleaved, cap, nontrivial=nontriv, branch=branch_interleaved,
-                       rule=rule_il + "; seeded random schedules (switch probability 0.01..0.5), single / multiple same-kind targets, cold / warm cache, 20% with storage")
-        cap.note("registry/random")
-        _lap(t0, "registry/random")
-        cap = Capped(ctx, oracle_interleaved)
-        cases = registry_preempt_cases(ctx, ctx.pick(25, 10 ** 6), ctx.pick(5, 100))
-        ctx.correspond("registry/preempt", cases, impl_interleaved, op_interleaved, cap, nontrivial=nontriv, branch=branch_interleaved,
-                       exhaustive=ctx.thorough,
-                       rule=rule_il + "; preemption-bounded: thread 0 is stopped before a line that touches the shared state, thread 1 runs to completion (one preemption; "
-                            "thorough: every such line) or is itself stopped once (two preemptions, sampled)")
-        cap.note("registry/preempt")
-        minimal_interleavings(ctx, cases)
-        _SIDE.clear()
-        if _TALLY["stuck"] or _TALLY["uncontrolled"]:
-            ctx.note(f"interleaver: {_TALLY['uncontrolled']} run(s) where a baton holder was taken to be blocked on a lock (schedule not exactly "
-                     f"replayable), {_TALLY['stuck']} run(s) given up as stuck; their access logs and results were still checked")
-        _lap(t0, "registry/preempt")
+    nontriv = lambda c, o: True  # noqa: E731
+    wp = ctx.driver.run(["c15.workerprog 0"])[0] if ctx.model_available else "ok H.R0.H.G0.C.X0.D.H -"
+    ctx._c15_workerprog = wp.split(" ")[1].split(".")
+    rule_il = ("2..3 real threads, each get_array(run_i, targets) on ONE context, scheduled line by line inside strax/context.py; every access of the "
+               "plugin registry, of the _fixed_plugin_cache attribute and of the inner plugin-cache dicts is logged and replayed through the Lean dict model "
+               "(c15.replay), which must predict every result (incl. the first exception) and the final key sets; oracle: every thread returns the sequential "
+               "result, one violation per failing thread")
+    all_cases = []
+    cases = registry_random_cases(ctx, ctx.pick(60, 800))
+    ctx.correspond("registry/random", cases, impl_interleaved, op_interleaved,
+                   one_per_failure(ctx, "registry/random", lambda c, o: failures_interleaved(c)), nontrivial=nontriv, branch=branch_interleaved,
+                   rule=rule_il + "; seeded random schedules (switch probability 0.01..0.5), single / multiple same-kind targets, cold / warm cache, 20% with storage")
+    all_cases += cases
+    _lap(t0, "registry/random")
+    cases = registry_preempt_cases(ctx, ctx.pick(25, 10 ** 6), ctx.pick(5, 100))
+    ctx.correspond("registry/preempt", cases, impl_interleaved, op_interleaved,
+                   one_per_failure(ctx, "registry/preempt", lambda c, o: failures_interleaved(c)), nontrivial=nontriv, branch=branch_interleaved,
+                   exhaustive=ctx.thorough,
+                   rule=rule_il + "; preemption-bounded: thread 0 is stopped before a line that touches the shared state, thread 1 runs to completion (one preemption; "
+                        "thorough: every such line) or is itself stopped once (two preemptions, sampled)")
+    all_cases += cases
+    minimal_interleavings(ctx, cases)
+    _lap(t0, "registry/preempt")
+
+    # program layer (Instr / stepThread / Sys.run / Sys.runBlocks) against get_iter: the same runs, read as thread programs
+    ctx.correspond("registry/program", all_cases, impl_program, op_program, None, nontrivial=nontriv,
+                   branch=lambda c, o: f"{c['targets']} {'warm' if c['warm'] else 'cold'}: " + o.split(" reg=")[0][3:].replace("done", "ok"),
+                   rule="the runs of registry/random and registry/preempt read as thread programs: per thread the order of its program-level events (registerTemp "
+                        "look-up / cache reset / assignment, registry iteration start + every step, temp-name membership test / subscript, clean-up snapshot + every del, "
+                        "cache attribute test / use / re-initialisation, inner cache dict iteration / insert / subscript); the Lean transition system (c15.sched: stepThread, "
+                        "Sys.run) executes these programs under the interleaving of the real accesses and must end in the same outcome class: which thread fails with which "
+                        "error kind, final registry keys, cache flag.  Plus program-shape: every finished worker's events contain workerProg's instruction classes in "
+                        "workerProg's order (one registration, one clean-up, temp look-ups in between); a single-target worker on a warm cache writes nothing shared")
+    block_cases = []
+    for tkey in ("single", "multi"):
+        for warm in (0, 1):
+            for nth, firsts in ((2, (0, 1)), (3, (2,))):
+                for first in firsts:
+                    block_cases.append(dict(targets=tkey, warm=warm, threads=nth, storage=0, blocks=1,
+                                            strategy=dict(kind="preempt", switches=[], first=first)))
+    ctx.correspond("registry/blocks", block_cases, impl_program, op_program,
+                   one_per_failure(ctx, "registry/blocks", lambda c, o: failures_interleaved(c)), nontrivial=nontriv, exhaustive=True,
+                   rule="workers run one after the other (no preemption; 2 and 3 threads, each order of the first thread, single / multiple targets, cold / warm): "
+                        "their event programs executed by Sys.runBlocks (c15.blocks: every program as one atomic block) must give the real outcome: all done, registry restored")
+    for c in all_cases + block_cases:
+        for m in shape_failures(ctx, c):
+            ctx.violation("registry/program", "correspondence", {"case": {k: v for k, v in c.items() if k != "strategy"}, "op": None},
+                          {"programs": _SIDE[id(c)]["prog"]["progs"] if _SIDE.get(id(c), {}).get("prog") else None}, m, False)
+    ctx.note(f"registry/program: {_PROG_NOTES['compared']} run(s) compared with the program-layer model, {_PROG_NOTES['incomparable']} left out "
+             "(an iterator step the dict model leaves unspecified, a nested iteration, or an access by an uncontrolled thread)")
+    for comp in ("registry/random", "registry/preempt"):
+        ctx.note(f"{comp}: {ctx.comp(comp).oracle_failures} failing thread(s) in {ctx.comp(comp).evaluations} runs (every one filed; the engine keeps 5 per component of listed and of unlisted ones)")
+    _SIDE.clear()
+    if _TALLY["stuck"] or _TALLY["uncontrolled"]:
+        ctx.note(f"interleaver: {_TALLY['uncontrolled']} run(s) where a baton holder was taken to be blocked on a lock (schedule not exactly "
+                 f"replayable), {_TALLY['stuck']} run(s) given up as stuck; their access logs and results were still checked")
+    _lap(t0, "registry/program+blocks")
 
 
 def run_real(ctx, t0):
-    if True:
-        cap = Capped(ctx, oracle_real)
-        cases = [real_case(ctx.rng) for _ in range(ctx.pick(120, 1000))]
-        ctx.check_oracle("real/multi-run", cases, impl_real, cap, nontrivial=lambda c, o: c["workers"] >= 2, branch=branch_real,
-                         rule="get_array / get_df / make on 2..8 runs x 1..8 workers, single / multiple same-kind targets, cold / warm plugin cache, with / without "
-                              "storage, 25% with failing runs (60% of those with ignore_errors), interpreter switch interval 1 microsecond; non-trivial = at least 2 workers")
-        cap.note("real/multi-run")
-        _lap(t0, "real/multi-run")
+    cases = [real_case(ctx.rng) for _ in range(ctx.pick(120, 1000))]
+    ctx.check_oracle("real/multi-run", cases, impl_real, one_per_failure(ctx, "real/multi-run", failures_real),
+                     nontrivial=lambda c, o: c["workers"] >= 2, branch=branch_real,
+                     rule="get_array / get_df / make on 2..8 runs x 1..8 workers, single / multiple same-kind targets, cold / warm plugin cache, with / without "
+                          "storage, 25% with failing runs (60% of those with ignore_errors), interpreter switch interval 1 microsecond; per run: rows equal the sequential "
+                          "single-run call, run_id attached, runs grouped in run-id order; a failing run raises ITS exception or is omitted; one violation per failure; "
+                          "non-trivial = at least 2 workers")
+    ctx.note(f"real/multi-run: {ctx.comp('real/multi-run').oracle_failures} failure(s) in {ctx.comp('real/multi-run').evaluations} calls")
+    _lap(t0, "real/multi-run")
 
 
 def search(ctx):
-    """an obligation broke: look for a failing input on the real code with the oracles only"""
+    """an obligation broke: look for a failing input on the real code with the oracles only.  The registry / real
+    searches run under the regular component names, so that the listed findings (pinned to those components) are
+    recognised and only a different failure is reported."""
     cases = gen_multi_run_random(ctx, 2000)
     ctx.check_oracle("search/multi_run", cases, impl_multi_run, oracle_multi_run)
     with quiet_stdout():
-        cap = Capped(ctx, oracle_interleaved)
-        ctx.check_oracle("search/registry", registry_random_cases(ctx, 300), impl_interleaved, cap)
-        cap = Capped(ctx, oracle_real)
-        ctx.check_oracle("search/real", [real_case(ctx.rng) for _ in range(300)], impl_real, cap)
+        ctx.check_oracle("registry/random", registry_random_cases(ctx, 200), impl_interleaved,
+                         one_per_failure(ctx, "registry/random", lambda c, o: failures_interleaved(c)))
+        _SIDE.clear()
+        ctx.check_oracle("real/multi-run", [real_case(ctx.rng) for _ in range(200)], impl_real,
+                         one_per_failure(ctx, "real/multi-run", failures_real))
 
 
 REPLAYERS = {
